@@ -186,6 +186,62 @@ def main():
                     h.case(("float", mode, nm, pos) if n >= 2 else None)
                     h.count("route", f"float-{mode}")
 
+    # ------------------------------------------------------------------ the library's own bounding-box filter, and two pyramids alive at once
+    try:
+        from toasty.samplers import _latlon_tile_filter
+        from toasty.pyramid import Pyramid
+        for _ in range(6 if h.deep else 3):
+            lon0 = rng.uniform(0, 2 * math.pi)
+            lat0 = rng.uniform(-1.2, 0.9)
+            box = (lon0, lon0 + rng.uniform(0.2, 2.5), lat0, lat0 + rng.uniform(0.1, 0.6))
+            for nm, cs in systems:
+                depth = 3
+                bad = None
+                nseen = 0
+                for route in ("generate_tiles_filtered", "Pyramid.new_toast_filtered"):
+                    flt = _latlon_tile_filter(*box)
+                    if route == "generate_tiles_filtered":
+                        tiles = list(toast.generate_tiles_filtered(depth, flt, bottom_only=False, coordsys=cs))
+                    else:
+                        tiles = [t for (_p, t) in Pyramid.new_toast_filtered(depth, flt, coordsys=cs)._generator() if t is not None]
+                    for t in tiles:
+                        if t.pos.n < 1:
+                            continue
+                        nseen += 1
+                        ref = toast.create_single_tile(Pos(t.pos.n, t.pos.x, t.pos.y), coordsys=cs)
+                        if not corners_equal(t.corners, ref.corners) or len(t.corners) != 4 or t.increasing != ref.increasing:
+                            bad = (f"{route} with the library's lat/lon bounding-box filter {tuple(round(v, 3) for v in box)} yields position {tuple(t.pos)} with corners "
+                                   f"{show(t.corners)}; create_single_tile gives {show(ref.corners)}")
+                            break
+                    if bad:
+                        break
+                h.case(("bbox-filter", nm, tuple(round(v, 6) for v in box)))
+                h.count("route", "library-filter")
+                if bad:
+                    h.violation("route:library-filter", f"{nm} system: {bad}", input={"system": nm, "box": box, "depth": depth}, observed=bad)
+        # two TOAST pyramids of different coordinate systems alive at the same time: each hands out the tiles of ITS system
+        for n in (1, 2, 3):
+            for first in (0, 1):
+                pa = Pyramid.new_toast(n, coordsys=systems[first][1])
+                pb = Pyramid.new_toast(n, coordsys=systems[1 - first][1])
+                bad = None
+                for (nm, cs), pyr in ((systems[first], pa), (systems[1 - first], pb)):
+                    for (p_, t) in pyr._generator():
+                        if p_.n < 1 or t is None:
+                            continue
+                        ref = toast.create_single_tile(Pos(p_.n, p_.x, p_.y), coordsys=cs)
+                        if not corners_equal(t.corners, ref.corners) or t.increasing != ref.increasing:
+                            bad = (f"a depth-{n} pyramid made for the {nm} system (another one for the other system made {'after' if pyr is pa else 'before'} it) hands out "
+                                   f"position {tuple(p_)} with corners {show(t.corners)}; that system's tile has {show(ref.corners)}")
+                            break
+                    if bad:
+                        break
+                h.case(("two-pyramids", n, first))
+                h.count("route", "two-pyramids")
+                if bad:
+                    h.violation("route:two-pyramids", bad, input={"depth": n, "first": systems[first][0]}, observed=bad)
+    except Exception as e:
+        h.violation("route:library-filter:crash", f"library-filter / two-pyramid routes raised {type(e).__name__}: {e}", input="library-filter")
     # ------------------------------------------------------------------ the tiles a WORKFLOW works on: `Builder.toast_base(…, is_planet=…,
     # tile_filter=…)` shows its filter (and fills) the tiles of the coordinate system the caller asked for
     try:
